@@ -354,7 +354,7 @@ def audit_axioms(prop_id):
     if p.returncode != 0:
         return False, {'log': out[-4000:], 'theorems': names}
     axioms = {}
-    for m in re.finditer(r"'PyTRS\.([^']+)' (depends on axioms: \[([^\]]*)\]|does not depend on any axioms)", out):
+    for m in re.finditer(r"'PyTRS\.(\S+?)' (depends on axioms: \[([^\]]*)\]|does not depend on any axioms)", out):
         axioms[m.group(1)] = [a.strip() for a in (m.group(3) or '').replace('\n', ' ').split(',') if a.strip()]
     missing = [n for n in names if n not in axioms]
     if missing:
